@@ -49,6 +49,7 @@ def std_cpu(**ov):
         for n in range(15):
             regs.set(n, DATA + 0x40 * n + (0x400 if name == "fiq" and n >= 8 else 0))
     regs.cpsr.value = 0x000001D3       # svc, ARM, A I F masked
+    regs.set_event_register(True)      # a pending event: a condition-failed WFE must not consume it
     return cpu, plan, plan.snapshot()
 
 
